@@ -81,6 +81,7 @@ type Contract struct {
 	Inline    bool     // always inline at call sites
 	Props     []string // default property tags for auto obligations
 	PanicsWhen []*Clause
+	UsesCallRecords bool // some clause mentions \ret(f, i) or \arg(f, i)
 	NoReturnErrSeen bool
 	Skip      bool // do not verify the body (outside subset), reason in Note
 	Note      string
@@ -261,6 +262,9 @@ func ParseContractFile(path string, cs *ContractSet) error {
 				return fail(err.Error())
 			}
 			cl := &Clause{Kind: word, Label: label, Props: props, Expr: e, Text: body, Tier: tier}
+			if cur != nil && (strings.Contains(body, `\ret(`) || strings.Contains(body, `\arg(`)) {
+				cur.UsesCallRecords = true
+			}
 			if curLemma != nil {
 				if word == "requires" {
 					curLemma.Hyps = append(curLemma.Hyps, cl)
